@@ -42,54 +42,32 @@ def replaceAll (old new s : Bytes) : Bytes :=
   | [] => s
   | _ :: _ => replGo old new 0 s
 
-/-- the constants of dump.go, regenerated from the source (`Generated.C17.cfg`). -/
+/-- the constants of `quoteLiteral` in dump.go, regenerated from the source (`Generated.C17.cfg`). -/
 structure Cfg where
-  outq : Bytes          -- "#OUTQUOTES"   (joinQuotes)
-  quote : Bytes         -- `"`            (ReplaceAll(joinQuotes(v), `"`, …))
-  q34 : Bytes           -- "##34;"
-  ampFrom : Bytes       -- "&"            (writeString)
-  ampTo : Bytes         -- "&amp;"
-  pass1 : Bytes × Bytes -- ("##34;", `\"`)      DumpIDL tail, in source order
-  pass2 : Bytes × Bytes -- (`\\"`, `\"`)
-  pass3 : Bytes × Bytes -- ("#OUTQUOTES", `"`)
+  dq : Bytes      -- `"`   delimiter and the byte escaped between double quotes
+  dqEsc : Bytes   -- `\"`
+  sq : Bytes      -- `'`
+  sqEsc : Bytes   -- `\'`
   deriving Repr, DecidableEq
 
-def stdCfg : Cfg :=
-  { outq := [35, 79, 85, 84, 81, 85, 79, 84, 69, 83]
-    quote := [34]
-    q34 := [35, 35, 51, 52, 59]
-    ampFrom := [38]
-    ampTo := [38, 97, 109, 112, 59]
-    pass1 := ([35, 35, 51, 52, 59], [92, 34])
-    pass2 := ([92, 92, 34], [92, 34])
-    pass3 := ([35, 79, 85, 84, 81, 85, 79, 84, 69, 83], [34]) }
+def stdCfg : Cfg := { dq := [34], dqEsc := [92, 34], sq := [39], sqEsc := [92, 39] }
 
-/-- `stringBuilder.writeString`: the text appended to the buffer. -/
-def ws (cfg : Cfg) (str : Bytes) : Bytes :=
-  if contains cfg.ampFrom str then replaceAll cfg.ampFrom cfg.ampTo str else str
+/-- `stringBuilder.writeString`: the text appended to the buffer — the string itself (no escaping). -/
+def ws (_cfg : Cfg) (str : Bytes) : Bytes := str
 
-/-- `html.UnescapeString` restricted to the only entity that can be complete in a buffer in which every
-    `&` was written by `ws` (i.e. is followed by `amp;`): `&amp;` → `&`, one pass, left to right.
-    ASSUMPTION (html-amp): on such buffers Go's `html.UnescapeString` computes exactly this function;
-    exercised by the correspondence (`U` ops) on escaped and doubly escaped images of entity-like text.
-    On other strings (`&lt;`, `&#34;`, `&amp` without `;` …) this function is NOT a model of Go's. -/
-def htmlUnescape (s : Bytes) : Bytes := replaceAll [38, 97, 109, 112, 59] [38] s
+/-- `oddBackslashesBefore(v, q)`: `odd` = the run of backslashes just read has odd length. -/
+def oddGo (q : Nat) : Bool → Bytes → Bool
+  | _, [] => false
+  | odd, c :: s =>
+    if c = 92 then oddGo q (!odd) s
+    else if c = q then (if odd then true else oddGo q odd s)
+    else oddGo q false s
 
-/-- tail of `DumpIDL`: the three `strings.Replace` passes and the unescape over the whole buffer. -/
-def finish (cfg : Cfg) (buf : Bytes) : Bytes :=
-  let e1 := replaceAll cfg.pass1.1 cfg.pass1.2 buf
-  let e2 := replaceAll cfg.pass2.1 cfg.pass2.2 e1
-  let e3 := replaceAll cfg.pass3.1 cfg.pass3.2 e2
-  htmlUnescape e3
-
-/-- `joinQuotes` -/
-def joinQuotes (cfg : Cfg) (s : Bytes) : Bytes := cfg.outq ++ s ++ cfg.outq
-
-/-- `replaceQuotes` (comments) -/
-def replaceQuotes (cfg : Cfg) (s : Bytes) : Bytes := replaceAll cfg.quote cfg.outq s
-
-/-- `strings.ReplaceAll(joinQuotes(v), "\"", "##34;")` -/
-def quoteVal (cfg : Cfg) (v : Bytes) : Bytes := replaceAll cfg.quote cfg.q34 (joinQuotes cfg v)
+/-- `quoteLiteral`: between double quotes with `"` → `\"`, unless a `"` of the value is preceded by an odd
+    number of backslashes; then between single quotes with `'` → `\'`. -/
+def quoteVal (cfg : Cfg) (v : Bytes) : Bytes :=
+  if oddGo 34 false v then cfg.sq ++ replaceAll cfg.sq cfg.sqEsc v ++ cfg.sq
+  else cfg.dq ++ replaceAll cfg.dq cfg.dqEsc v ++ cfg.dq
 
 /-! ## numbers -/
 
@@ -129,29 +107,13 @@ def annLoop (cfg : Cfg) : List Ann → Bytes
 def printAnnotation (cfg : Cfg) (a : List Ann) : Bytes :=
   if a.isEmpty then [] else ws cfg [40] ++ annLoop cfg a ++ ws cfg [41]
 
-/-- `printAnnotation` into a `stringBuilder{raw: true}` (no `&` escaping): used by `typeName`, whose result
-    is escaped once by the caller's `writeString`. -/
-def annPairsRaw (cfg : Cfg) (key : Bytes) (lastAnn : Bool) : List Bytes → Bytes
-  | [] => []
-  | v :: vs =>
-    (key ++ [32, 61, 32] ++ quoteVal cfg v)
-      ++ (if !lastAnn || !vs.isEmpty then [44, 32] else [])
-      ++ annPairsRaw cfg key lastAnn vs
-
-def annLoopRaw (cfg : Cfg) : List Ann → Bytes
-  | [] => []
-  | a :: rest => annPairsRaw cfg a.key rest.isEmpty a.vals ++ annLoopRaw cfg rest
-
-def printAnnotationRaw (cfg : Cfg) (a : List Ann) : Bytes :=
-  if a.isEmpty then [] else [40] ++ annLoopRaw cfg a ++ [41]
-
 /-- `parser.Type` as far as `typeName` reads it (`cpp` = CppType, "" when absent). -/
 inductive Ty where
   | mk (name : Bytes) (key : Option Ty) (val : Option Ty) (cpp : Bytes) (anns : List Ann)
   deriving Repr, Inhabited
 
-/-- `typeName`: `cpp_type "…"` after the keyword of map/set and after the `>` of list; the annotations go
-    through a raw nested stringBuilder, the whole result is escaped once by the caller's `writeString`. -/
+/-- `typeName`: `cpp_type "…"` after the keyword of map/set and after the `>` of list; annotations through a
+    nested stringBuilder. -/
 def typeName : Cfg → Ty → Bytes
   | cfg, .mk name key val cpp anns =>
     let cppT : Bytes := if cpp.isEmpty then [] else [32, 99, 112, 112, 95, 116, 121, 112, 101, 32] ++ quoteVal cfg cpp
@@ -162,7 +124,7 @@ def typeName : Cfg → Ty → Bytes
         if name = [108, 105, 115, 116] then name ++ [60] ++ typeName cfg v ++ [62] ++ cppT
         else name ++ cppT ++ [60] ++ typeName cfg v ++ [62]
       | _, none => name
-    base ++ printAnnotationRaw cfg anns
+    base ++ printAnnotation cfg anns
 
 /-- `parser.ConstTypedValue` with exactly one member set (what the parser produces); `dbl` carries the
     IEEE bits, rendered through the parameter `ff` = `strconv.FormatFloat(·, 'f', -1, 64)`. -/
@@ -202,9 +164,9 @@ def printCVMap (cfg : Cfg) (ff : Nat → Bytes) : List (CV × CV) → Bytes
 end
 
 /-- the final text of one literal / one annotation list / one constant value written alone. -/
-def dumpLiteral (cfg : Cfg) (v : Bytes) : Bytes := finish cfg (ws cfg (quoteVal cfg v))
-def dumpAnnotations (cfg : Cfg) (a : List Ann) : Bytes := finish cfg (printAnnotation cfg a)
-def dumpCV (cfg : Cfg) (ff : Nat → Bytes) (v : CV) : Bytes := finish cfg (printCV cfg ff v)
+def dumpLiteral (cfg : Cfg) (v : Bytes) : Bytes := ws cfg (quoteVal cfg v)
+def dumpAnnotations (cfg : Cfg) (a : List Ann) : Bytes := printAnnotation cfg a
+def dumpCV (cfg : Cfg) (ff : Nat → Bytes) (v : CV) : Bytes := printCV cfg ff v
 
 /-! ## whole file (writer only; the reader of whole files is not modelled) -/
 
@@ -213,7 +175,7 @@ def isSpaceByte (c : Nat) : Bool := c = 32 || c = 9 || c = 10 || c = 11 || c = 1
 /-- `printComment`; `strings.TrimSpace` emptiness modelled for ASCII white space (comments produced by
     the parser are empty or start with `/`). -/
 def printComment (cfg : Cfg) (comment pre : Bytes) : Bytes :=
-  if comment.all isSpaceByte then [] else ws cfg (pre ++ replaceQuotes cfg comment ++ [10])
+  if comment.all isSpaceByte then [] else ws cfg (pre ++ comment ++ [10])
 
 structure Field where
   comment : Bytes
@@ -386,8 +348,8 @@ def dumpBuffer (cfg : Cfg) (ff : Nat → Bytes) (f : File) : Bytes :=
     ++ blankIf cfg f.exceptions
     ++ (f.services.map (printService cfg ff)).flatten
 
-/-- `DumpIDL` (new writer; `UseOldDumpFunction = false`). -/
-def dump (cfg : Cfg) (ff : Nat → Bytes) (f : File) : Bytes := finish cfg (dumpBuffer cfg ff f)
+/-- `DumpIDL` (new writer; `UseOldDumpFunction = false`): the buffer is returned as it is. -/
+def dump (cfg : Cfg) (ff : Nat → Bytes) (f : File) : Bytes := dumpBuffer cfg ff f
 
 /-! ## reader side -/
 
